@@ -468,3 +468,9 @@ def Drop2(x):
 def Slice1(a, lo, hi):
     # a[lo:hi]
     return [a[k + lo] for k in range(hi - lo)]
+
+
+@spec('int1', 'int', 'int', ret='int1')
+def ShiftSel(c, r, N):
+    # the selection of tableau rows r .. N-1 by the entries of c (row r + k selected by c[k]); rows below r are not selected
+    return [(c[i - r] if i >= r else 0) for i in range(N)]
